@@ -1071,6 +1071,16 @@ class ValueList(Value):
         return True
 
 
+def pad_brackets(content):
+    # "<<" directly followed by "<", or ">" directly followed by ">>", would
+    # be read back as other tokens ("<<<", "<>", ">>>"): keep them apart
+    if content.startswith("<"):
+        content = " " + content
+    if content.endswith(">"):
+        content = content + " "
+    return content
+
+
 @functools.total_ordering
 class ValueMap(Value):
     def __init__(self):
@@ -1088,16 +1098,14 @@ class ValueMap(Value):
         return str(self) < str(other)
 
     def __repr__(self):
-        return (
-            "<<<"
-            + ", ".join(
+        return "<<<" + pad_brackets(
+            ", ".join(
                 [
                     f"{key} => {self.value[key]}"
                     for key in self.getSortedKeys()
                 ]
             )
-            + ">>>"
-        )
+        ) + ">>>"
 
     def addMap(self, map_):
         for key, value in map_.items():
@@ -1433,11 +1441,9 @@ class ValueSet(Value):
         return str(self) < str(other)
 
     def __repr__(self):
-        return (
-            "<<"
-            + ", ".join([str(item) for item in self.getSortedItems()])
-            + ">>"
-        )
+        return "<<" + pad_brackets(
+            ", ".join([str(item) for item in self.getSortedItems()])
+        ) + ">>"
 
     def addItem(self, item):
         self.value.add(item)
